@@ -5,6 +5,7 @@ import (
 	"go/ast"
 	"go/token"
 	"go/types"
+	"reflect"
 
 	"cffverif/internal/astx"
 	"cffverif/internal/report"
@@ -19,7 +20,7 @@ type ruleCtx struct {
 
 func (rc *ruleCtx) key(what string) string { return rc.x.In.Key + "|" + what }
 func (rc *ruleCtx) pos(n ast.Node) string {
-	if n == nil {
+	if n == nil || reflect.ValueOf(n).IsNil() {
 		return "variant"
 	}
 	p := rc.x.In.Fset.Position(n.Pos())
